@@ -6,7 +6,7 @@ import re
 
 from ..core import guards
 from ..core import pyfacts as pf
-from ..core.match import call_arg, phi_alts, txt
+from ..core.match import canon, call_arg, phi_alts, txt
 from ..core.source import AnchorMissing
 from .common import VIEWER, ckey, enclosing, fn, stmt_of, where
 
@@ -99,7 +99,7 @@ def c15_1(ctx, ss):
     if hs is not None:
         r = [x for x in pf.walk_no_nested(hs.node) if isinstance(x, ast.Return)]
         p0 = hs.params[0]
-        okh = len(r) == 1 and txt(r[0].value) in (f"not all((isinstance(p, str) for p in {p0}))", f"any((not isinstance(p, str) for p in {p0}))", f"any((isinstance(p, dict) for p in {p0}))")
+        okh = len(r) == 1 and txt(r[0].value) in (canon(f"not all((isinstance(p, str) for p in {p0}))"), canon(f"any((not isinstance(p, str) for p in {p0}))"), canon(f"any((isinstance(p, dict) for p in {p0}))"))
         (ctx.holds if okh else ctx.violation)("C15.1", ckey(hs, None, "has_subdecay"), where(hs, hs.node),
                                               "a line has a sub-decay iff some daughter is not a plain name" if okh else f"has_subdecay is `{txt(r[0].value) if r else None}`")
     ws = helpers.get("new_node_with_subchain")
